@@ -193,6 +193,83 @@ def generic_stage(ctx, recs):
     return stats
 
 
+def fd_stage(ctx, recs):
+    """scope of a dead queue: specs/DeadQueueScope.tla + pipelines built through fd.addPipeline in every order"""
+    quick = ctx.tier == "quick"
+    res = ctx.tlc_expect_ok("DeadQueueScope", "DeadQueueScope_quick.cfg" if quick else "DeadQueueScope_thorough.cfg", deadlock=False,
+                            timeout=600, workers=2, name="DeadQueueScope: routing is a function of the pipeline's own config (modulo D)")
+    cases = res.printed
+    if len(cases) < 100:
+        raise vlib.Infra("DeadQueueScope exported only %d cases" % len(cases))
+    m = ctx.tlc("DeadQueueScope", "DeadQueueScope_mut.cfg", deadlock=False, timeout=600, workers=2,
+                overrides={"M_DeadQueueOnCopy": "FALSE"}, name="DeadQueueScope mutant M_DeadQueueOnCopy off")
+    if m.ok or m.violated != "DeadQueueIffDeclared":
+        raise vlib.Infra("spec mutant M_DeadQueueOnCopy=FALSE is not rejected (ok=%s %s)" % (m.ok, m.violated))
+    st = ctx.tlc("DeadQueueScope", "DeadQueueScope_strict.cfg", deadlock=False, timeout=600, workers=2,
+                 name="DeadQueueScope strict DeadQueueIsOwn, deviation on")
+    if st.ok or st.violated != "DeadQueueIsOwn":
+        raise vlib.Infra("strict DeadQueueIsOwn with the deviation on: expected a counterexample, got ok=%s %s" % (st.ok, st.violated))
+    ideal = ctx.tlc("DeadQueueScope", "DeadQueueScope_strict.cfg", deadlock=False, timeout=600, workers=2,
+                    overrides={"D_DqConfigOnRegistryEntry": "FALSE"}, name="DeadQueueScope strict, deviation off (ideal)")
+    if not ideal.ok:
+        raise vlib.Infra("strict DeadQueueIsOwn without the deviation should hold: %s" % ideal.violated)
+    cases.sort(key=lambda c: json.dumps(c, sort_keys=True))
+    if quick:
+        two = [c for c in cases if len(c["cfgs"]) == 2]
+        three = [c for c in cases if len(c["cfgs"]) > 2]
+        cases = two + ctx.rng.sample(three, min(len(three), 40))
+    for i, c in enumerate(cases):
+        c["idx"] = i
+    binary = ctx.c09o_builds["fd"].result()
+    path = os.path.join(ctx.scratch, "c09fd_cases.ndjson")
+    outp = os.path.join(ctx.scratch, "c09fd_out.ndjson")
+    with open(path, "w") as f:
+        for c in cases:
+            f.write(json.dumps({"idx": c["idx"], "cfgs": c["cfgs"], "order": c["order"]}) + "\n")
+    rc, txt = ctx.run_bin(binary, "^TestVerifC09Fd$", env={"VERIF_CASES": path, "VERIF_OUT": outp, "LOG_LEVEL": "error"}, timeout=900)
+    if rc != 0:
+        raise vlib.Infra("C09 outputs stage: fd harness failed rc=%s:\n%s" % (rc, txt[-3000:]))
+    out = {}
+    for line in open(outp):
+        r = json.loads(line)
+        out[r["idx"]] = r
+    if len(out) != len(cases):
+        raise vlib.Infra("C09 outputs stage: fd harness executed %d of %d cases" % (len(out), len(cases)))
+    for c in cases:
+        r = out[c["idx"]]
+        base = {"stage": "fd", "case": {"cfgs": c["cfgs"], "order": c["order"]}}
+        if r["static_plain_has_dq"]:
+            recs.append(dict(base, kind="fd_static_info_has_dead_queue", dq_type=r.get("static_plain_dq_type")))
+        for pi, pp in enumerate(r["pipes"]):
+            b = dict(base, pipeline=pi + 1, declared=pp["cfg"], observed={k: pp[k] for k in ("errcb", "handed", "commits")})
+            offs = sorted(pp["commits"])
+            if pp.get("timeout"):
+                recs.append(dict(b, kind="fd_hang"))
+                continue
+            if any(n != 1 for n in pp["commits"].values()):
+                recs.append(dict(b, kind="fd_commit_count"))
+            if pp["errcb"] != len(offs):              # one event per batch: one given-up batch per event
+                recs.append(dict(b, kind="fd_error_callback_count"))
+            handed = pp["handed"] or []
+            if pp["cfg"] == "none":
+                if handed:
+                    recs.append(dict(b, kind="fd_foreign_dead_queue", dq_names=sorted({h["dq_name"] for h in handed})))
+            else:
+                if sorted(str(h["offset"]) for h in handed) != offs:
+                    recs.append(dict(b, kind="fd_dead_queue_handover"))
+                wrong = sorted({h["dq_name"] for h in handed if h["dq_name"] != pp["cfg"]})
+                if wrong:
+                    recs.append(dict(b, kind="fd_dead_queue_config_of_other_pipeline", got=wrong,
+                                     got_is_config_of_last_constructed_pipeline_with_dead_queue=wrong == [c["model_dq_config"][pi]],
+                                     events_still_handed_over_once_and_committed_once=(
+                                         sorted(str(h["offset"]) for h in handed) == offs and all(n == 1 for n in pp["commits"].values()))))
+            ctx.evaluations += 1
+        ctx.traces_validated += 1
+        if isinstance(ctx.nontrivial, set) and len(set(c["cfgs"])) > 1:
+            ctx.nontrivial.add(("c09fd", tuple(c["cfgs"]), tuple(c["order"])))
+    return {"cases_from_tlc": len(res.printed), "cases_run": len(cases)}
+
+
 def start_builds(ctx):
     """the five test binaries are compiled in the background while TLC runs (go_test_build creates its private go.mod
     directory lazily, which is not thread-safe: create it first)"""
@@ -202,8 +279,8 @@ def start_builds(ctx):
         for f in ("go.mod", "go.sum"):
             shutil.copy(os.path.join(vlib.REPO, f), md)
     ctx.overlay_json()
-    pool = concurrent.futures.ThreadPoolExecutor(max_workers=5)
-    pkgs = [ES_PKG] + ["plugin/output/" + s for s in GENERIC
+    pool = concurrent.futures.ThreadPoolExecutor(max_workers=6)
+    pkgs = ["fd", ES_PKG] + ["plugin/output/" + s for s in GENERIC
                        if os.path.exists(os.path.join(vlib.OVERLAY_SRC, "plugin", "output", s, "zz_verif_c09_out_test.go"))]
     ctx.c09o_builds = {p: pool.submit(ctx.go_test_build, p) for p in pkgs}
     pool.shutdown(wait=False)
@@ -214,6 +291,7 @@ def stage(ctx):
     start_builds(ctx)
     info = {"elasticsearch": es_stage(ctx, recs)}
     info["generic"] = generic_stage(ctx, recs)
+    info["dead_queue_scope"] = fd_stage(ctx, recs)
     ctx.extra["c09_outputs"] = info
     ctx.assumptions += [
         "C09 plugin-level stage: one batcher worker, retention 1ms; elasticsearch scripts enumerated by TLC for batches of <= 4 "
@@ -221,5 +299,9 @@ def stage(ctx):
         "the plugin's documented classification; the generic family covers http, splunk, loki, kafka (gelf sleeps 1 s per failed "
         "attempt and file has no retry option: not covered)",
     ]
+    ctx.assumptions.append(
+        "C09 dead-queue scope: 2..3 pipelines with one output type and one dead-queue type, built through fd.addPipeline in every "
+        "order with harness plugins around the real RetriableBatcher / Router (real output plugins cannot be imported into package "
+        "fd: import cycle); one event per batch")
     vlib.log("C09 outputs stage: %s" % json.dumps(info))
     ctx.classify(recs)
